@@ -599,6 +599,123 @@ theorem never_panics_disable_and_readback (st : St) (sh : StreamHandle) :
     | err e => simp
     | panic => exact absurd rfl h2
 
+/-- **enable_with_stream_already_enabled**: the stream is still enabled (SI_CONTROL reads with
+bit 0 set) and the device fails the disable write (error status, transport error, lost
+acknowledge: fault `f`): `enable_streaming` returns exactly that error, its only accesses are the
+SI_CONTROL read and the failed disable write — no size register is read or written, no enable
+write is attempted — and the image is untouched unless the device executed the disable write
+although its acknowledge was lost. -/
+theorem enable_with_stream_already_enabled (p : Profile) (m : Mem) (log : List Access)
+    (fs : List (Option Fault)) (f : Fault) (c : Option (Nat × Nat)) (s : Nat)
+    (hs : s + SI_CONTROL + 4 ≤ 2 ^ 64) (hm : m.rangeMapped (s + SI_CONTROL) 4 = true)
+    (hen : enabledIn m s) :
+    enableStreaming p ⟨⟨m, log, none :: some f :: fs⟩, c, some s⟩ =
+      (.err f.err,
+       ⟨⟨if f.applied then m.write (s + SI_CONTROL) (toLE 4 0) else m,
+         log ++ [.r (s + SI_CONTROL) 4 true, .w (s + SI_CONTROL) (toLE 4 0) false f.applied], fs⟩,
+        c, some s⟩) := by
+  have hen' : fromLE (m.read (s + SI_CONTROL) 4) % 2 = 1 := hen
+  have hri : readInputs s ⟨⟨m, log, none :: some f :: fs⟩, c, some s⟩ =
+      (.err f.err,
+       ⟨⟨if f.applied then m.write (s + SI_CONTROL) (toLE 4 0) else m,
+         log ++ [.r (s + SI_CONTROL) 4 true, .w (s + SI_CONTROL) (toLE 4 0) false f.applied], fs⟩,
+        c, some s⟩) := by
+    unfold readInputs
+    rw [M.bind_ok _ _ _ _ _ (readReg_served s SI_CONTROL 4 m log _ c (some s) (by decide) hs hm)]
+    simp only [hen', if_true]
+    rw [M.bind_err _ _ _ _ _ (writeReg32_faulted s SI_CONTROL 0 m _ fs c (some s) f hs hm)]
+    simp [List.append_assoc]
+  unfold enableStreaming
+  rw [M.bind_ok _ _ _ _ _ (getSirm_warm _ _ _)]
+  unfold enableAt prepareAt
+  rw [M.bind_err _ _ _ _ _ (M.bind_err _ _ _ _ _ hri)]
+
+/-- **disable_streaming_never_panics**: for every device image, handle state and fault schedule. -/
+theorem disable_streaming_never_panics (st : St) : (disableStreaming st).1 ≠ .panic :=
+  (NP.disableStreaming st).1
+
+/-- **disable_streaming_clears_enable_or_errors**: for every device image, handle state and
+fault schedule, with `s` the SIRM address the handle resolves:
+* `disable_streaming` returns `Ok` ⇒ its last access is the acknowledged write `SI_CONTROL := 0`
+  and the stream-enable bit is clear in the device afterwards;
+* otherwise it returns an `Err` (never a panic);
+* in every case the call performs at most one write, `SI_CONTROL := 0`, after reads only; so if
+  the enable bit is set afterwards it was set before and the call did NOT return `Ok`
+  (disable never enables, and never reports success while the stream is still enabled).
+If the SIRM address cannot be resolved the call fails with that error after reads only. -/
+theorem disable_streaming_clears_enable_or_errors (st : St) :
+    (∀ e, (getSirm st).1 = .err e → (disableStreaming st).1 = .err e ∧
+      (disableStreaming st).2 = (getSirm st).2) ∧
+    (∀ s, (getSirm st).1 = .ok s →
+      ((disableStreaming st).1 = .ok () ∨ ∃ e, (disableStreaming st).1 = .err e) ∧
+      ((disableStreaming st).1 = .ok () →
+        ¬ enabledIn (disableStreaming st).2.dev.mem s ∧
+        (disableStreaming st).2.dev.log =
+          (getSirm st).2.dev.log ++ [.w (s + SI_CONTROL) (toLE 4 0) true true]) ∧
+      (enabledIn (disableStreaming st).2.dev.mem s →
+        enabledIn st.dev.mem s ∧ (disableStreaming st).1 ≠ .ok ())) := by
+  have hfac : disableStreaming st = match getSirm st with
+      | (.ok s, st1) => writeReg32 s SI_CONTROL 0 st1
+      | (.err e, st1) => (.err e, st1)
+      | (.panic, st1) => (.panic, st1) := by
+    unfold disableStreaming
+    rw [M.bind_eq]
+    cases getSirm st with
+    | mk r st1 => cases r <;> rfl
+  obtain ⟨pre, _, hmem, _⟩ := resolution_reads_only st
+  constructor
+  · intro e he
+    rw [hfac]
+    cases hg : getSirm st with
+    | mk r st1 =>
+      have : r = .err e := by rw [hg] at he; exact he
+      subst this; exact ⟨rfl, rfl⟩
+  · intro s hs
+    cases hg : getSirm st with
+    | mk r st1 =>
+      have hr : r = .ok s := by rw [hg] at hs; exact hs
+      subst hr
+      have hd : disableStreaming st = writeReg32 s SI_CONTROL 0 st1 := by rw [hfac, hg]
+      have hm1 : st1.dev.mem = st.dev.mem := by rw [hg] at hmem; exact hmem
+      rw [hd]
+      rcases writeReg32_cases s SI_CONTROL 0 st1 with ⟨g1, g2⟩ | ⟨ok, ap, g1, g2, g3, g4, g5⟩
+      · -- refused before any access
+        have hnp := (NP.writeReg32 s SI_CONTROL 0 st1).1
+        refine ⟨?_, fun h => absurd h g2, ?_⟩
+        · cases hres : (writeReg32 s SI_CONTROL 0 st1).1 with
+          | ok u => exact Or.inl rfl
+          | err e => exact Or.inr ⟨e, rfl⟩
+          | panic => exact absurd hres hnp
+        · intro hen
+          rw [g1, hm1] at hen
+          exact ⟨hen, g2⟩
+      · cases ok with
+        | true =>
+          have hap : ap = true := g4 rfl
+          subst hap
+          have hok := g3.mp rfl
+          have hmem' : (writeReg32 s SI_CONTROL 0 st1).2.dev.mem =
+              st1.dev.mem.write (s + SI_CONTROL) (toLE 4 0) := by rw [g2]; rfl
+          refine ⟨Or.inl hok, fun _ => ⟨by rw [hmem']; exact enabledIn_write_zero _ _, g1⟩, ?_⟩
+          intro hen
+          rw [hmem'] at hen
+          exact absurd hen (enabledIn_write_zero _ _)
+        | false =>
+          obtain ⟨e, he⟩ := g5 rfl
+          have hne : (writeReg32 s SI_CONTROL 0 st1).1 ≠ .ok () := by rw [he]; simp
+          refine ⟨Or.inr ⟨e, he⟩, fun h => absurd h hne, ?_⟩
+          intro hen
+          cases ap with
+          | true =>
+            have hmem' : (writeReg32 s SI_CONTROL 0 st1).2.dev.mem =
+                st1.dev.mem.write (s + SI_CONTROL) (toLE 4 0) := by rw [g2]; rfl
+            rw [hmem'] at hen
+            exact absurd hen (enabledIn_write_zero _ _)
+          | false =>
+            have hmem' : (writeReg32 s SI_CONTROL 0 st1).2.dev.mem = st1.dev.mem := by rw [g2]; rfl
+            rw [hmem', hm1] at hen
+            exact ⟨hen, hne⟩
+
 /-- **disable_streaming** on a conforming device: one write `SI_CONTROL := 0`, the enable bit is
 clear afterwards. -/
 theorem disable_clears (m : Mem) (log : List Access) (c : Option (Nat × Nat)) (s : Nat)
@@ -672,6 +789,20 @@ example : ArithScope 31 (2 ^ 31) (2 ^ 62) 1 := ⟨by decide, by decide, by decid
 def exFault1 : St := ⟨⟨exMem, [], List.replicate 9 none ++ [some ⟨.io, false⟩]⟩, none, none⟩
 example : (enableStreaming .dev exFault1).1 = .err .io := by decide
 example : ¬ enabledIn (enableStreaming .dev exFault1).2.dev.mem 0x1000 := by decide
+
+/-- `enable_with_stream_already_enabled`: hypotheses satisfiable (warm cache, stream enabled, the
+disable write — second access — refused) and the conclusion on the concrete device -/
+example : exMem.rangeMapped (0x1000 + SI_CONTROL) 4 = true ∧ enabledIn exMem 0x1000 := by decide
+example : (enableStreaming .dev ⟨⟨exMem, [], [none, some ⟨.io, false⟩]⟩, none, some 0x1000⟩).1 = .err .io ∧
+    (enableStreaming .dev ⟨⟨exMem, [], [none, some ⟨.io, false⟩]⟩, none, some 0x1000⟩).2.dev.log.length = 2 := by
+  decide
+
+/-- `disable_streaming_clears_enable_or_errors`: both branches occur -/
+example : (getSirm exSt).1 = .ok 0x1000 ∧ (disableStreaming exSt).1 = .ok () ∧
+    ¬ enabledIn (disableStreaming exSt).2.dev.mem 0x1000 := by decide
+example : (disableStreaming ⟨⟨exMem, [], [some ⟨.timeout, false⟩]⟩, none, some 0x1000⟩).1 = .err .timeout ∧
+    enabledIn (disableStreaming ⟨⟨exMem, [], [some ⟨.timeout, false⟩]⟩, none, some 0x1000⟩).2.dev.mem 0x1000 := by
+  decide
 
 /-- the device refuses the disable write itself: `Err`, the stream stays enabled, no size written -/
 def exFault2 : St := ⟨⟨exMem, [], List.replicate 4 none ++ [some ⟨.io, false⟩]⟩, none, none⟩
